@@ -1,7 +1,44 @@
-(* C19 - stream wrappers close their resource exactly once. *)
+(* C19 - stream wrappers close their resource exactly once. Proofs: Wrappers/Tree_proofs.v *)
 From Coq Require Import List NArith ZArith Bool.
-From SA Require Import Base.Tok Wrappers.Tree.
+From SA Require Import Base.Tok Wrappers.Tree Wrappers.Tree_proofs.
 Import ListNotations.
+Local Open Scope nat_scope.
 
-Theorem c19_placeholder : forall t, counts (build t) = counts (build t).
-Proof. reflexivity. Qed.
+(* For every composition of wrappers (any depth, built by the real constructors' rules, every raw resource under one
+   branch) and every sequence of operations addressed to any wrapper of the composition: *)
+
+(* no underlying resource is ever closed twice *)
+Theorem c19_once : forall t ops, Forall (fun c => c <= 1) (counts (fst (run (build t) ops))).
+Proof. exact once. Qed.
+
+(* a Close addressed to wrapper k has closed every resource below k exactly once *)
+Theorem c19_closes : forall t ops k s,
+  sub k (fst (run (build t) (ops ++ [OClose k]))) = Some s -> Forall (fun c => c = 1) (counts s).
+Proof. exact closes. Qed.
+
+(* repeats report success, whatever the first Close returned and whatever happened in between *)
+Theorem c19_repeat_ok : forall t ops1 ops2 k,
+  sub k (build t) <> None ->
+  last (snd (run (build t) (ops1 ++ [OClose k] ++ ops2 ++ [OClose k]))) 9%N = 0%N.
+Proof. exact repeat_ok. Qed.
+
+(* the closed-status query answers false before anything was closed ... *)
+Theorem c19_status_before : forall t ops k,
+  no_close ops -> sub k (build t) <> None ->
+  last (snd (run (build t) (ops ++ [OClosed k]))) 9%N = 0%N.
+Proof. exact status_before. Qed.
+
+(* ... and true after the first Close of that wrapper, for ever *)
+Theorem c19_status_after : forall t ops1 ops2 k,
+  sub k (build t) <> None ->
+  last (snd (run (build t) (ops1 ++ [OClose k] ++ ops2 ++ [OClosed k]))) 9%N = 1%N.
+Proof. exact status_after. Qed.
+
+(* Read / Write / String / Closed never change the close state *)
+Theorem c19_other_inert : forall n k, fst (step n (OOther k)) = n /\ fst (step n (OClosed k)) = n.
+Proof. exact other_inert. Qed.
+
+Example c19_nonvacuous :
+  let t := TNamed FConn (TSim (TPair (TRaw false true) (TSafe FWriter (TRaw true false)))) in
+  sub 4 (build t) <> None /\ counts (fst (run (build t) [OClose 4; OClose 2; OClose 4])) = [1; 1].
+Proof. cbv zeta. split; [vm_compute; discriminate | vm_compute; reflexivity]. Qed.
